@@ -137,6 +137,16 @@ def run_check(prop, tier, seed, count=None):
             r['_world'] = part['world']
             r['_params'] = params
         results.extend(res)
+    sweep_info = None
+    if tcfg.get('sweep') and count is None:
+        sw = tcfg['sweep']
+        jobs, sweep_info = props.sweep_jobs(prop, sw, seed, runner)
+        res = runner.run_batch(prop, sw['world'], len(jobs), {'tier': tier}, seed=seed, jobs=jobs)
+        for r in res:
+            r['_world'] = sw['world']
+            r['_params'] = r.get('_jobparams') or {}
+        sweep_info['runs'] = len(res)
+        results.extend(res)
     errors = [r for r in results if r.get('error')]
     viol_runs = [r for r in results if r.get('violations')]
     violations_out = []
@@ -176,6 +186,9 @@ def run_check(prop, tier, seed, count=None):
             path = runner.write_replay(prop, r['_world'], r['seed'], r['_params'], best, rep, vv)
             violations_out.append((vv, path))
     wall = time.time() - t0
+    if sweep_info:
+        cfg = dict(cfg, extra_cov=dict(cfg.get('extra_cov') or {}, sweep=sweep_info,
+                                       exhaustive_over='every cut offset (and every two-way split) of the sampled streams only'))
     ev = summarize(prop, tier, seed, cfg, results, wall, violations_out, known_hits)
     for h in known_hits:
         print('KNOWN-FINDING: property=%s %s' % (prop, h['what']))
